@@ -1,2 +1,231 @@
+"""C12 - line-level preemption (sys.settrace) inside writer()/reader()/commit/rollback/_setup_version.
+
+Validates the atomicity assumption of the model: with a context switch possible before every source
+line of the admission code (also inside critical sections, where the other threads can only run
+their unlocked code: event.wait() checks, the unlocked reads of _setup_version, transaction bodies),
+the property oracle must still hold.  Schedules: every schedule with at most k preemptions
+(context-bounded, exhaustive) for 2 writers + 1 reader, plus random preemption.
+"""
+import c12_sched as cs
+
+
+def serial_reference(progs, admission):
+    hist = [(1, {})]
+    for x in admission:
+        _, repl, edits, commit = progs[x]
+        cont = {} if repl else dict(hist[-1][1])
+        changed = False
+        for e in edits:
+            if e[0] == 0:
+                cont[e[1]] = e[2]
+                changed = True
+            elif e[1] in cont:
+                del cont[e[1]]
+                changed = True
+        if commit and changed:
+            hist.append((hist[-1][0] + 1, cont))
+    return hist
+
+
+class LineRun:
+    def __init__(self, progs, kind):
+        self.progs = progs
+        self.kind = kind
+        self.r = cs.Run(progs, kind, line_mode=True)
+        self.trace = []
+        self.fail = None
+        self.in_body = set()
+
+    def check_state(self, i):
+        r = self.r
+        ws = r.sched.workers
+        # user-visible mutual exclusion: writer() has returned, commit()/rollback() has not
+        body = [w.tid for w in ws if getattr(w, "phase", None) == "body"]
+        if len(body) > 1:
+            return {"what": "two write transactions open at the same time", "threads": body}
+        if r.admission != r.arrival[: len(r.admission)]:
+            return {"what": "writers admitted out of arrival order", "arrival": list(r.arrival), "admission": list(r.admission)}
+        if not r.all_done() and not r.enabled_tids():
+            return {"what": "deadlock: unfinished threads and no step enabled",
+                    "gates": [repr(w.gate[2:]) for w in ws if not w.done]}
+        for w in ws:
+            if w.error is not None:
+                return {"what": "a thread raised " + repr(w.error), "thread": w.tid}
+        return None
+
+    def final_check(self):
+        r = self.r
+        progs = self.progs
+        writers = [t for t, p in enumerate(progs) if p[0] == 0]
+        if sorted(r.admission) != writers:
+            return {"what": "a writer finished without being admitted", "admission": list(r.admission)}
+        hist = serial_reference(progs, r.admission)
+        z = r.z
+        import pC11
+        got = pC11.version_content(z._versions[-1])
+        want = sorted([k, v] for k, v in hist[-1][1].items())
+        if got != want or z._versions[-1].id != hist[-1][0]:
+            return {"what": "final zone differs from the serial application in admission order", "got": got,
+                    "want": want, "admission": list(r.admission)}
+        states = {vid: sorted([k, v] for k, v in c.items()) for vid, c in hist}
+        for w in r.sched.workers:
+            if w.prog[0] == 1 and isinstance(w.result, list):
+                if states.get(w.result[0]) != w.result[1] or getattr(w, "result2", w.result) != w.result:
+                    return {"what": "reader observed a state that is not a committed serial state",
+                            "thread": w.tid, "seen": w.result}
+        if z._write_txn is not None or len(z._write_waiters) or len(z._readers):
+            return {"what": "zone not idle after every thread finished"}
+        return None
+
+
+def run_line_schedule(progs, kind, chooser, max_steps=20000):
+    """chooser(i, enabled tids, last tid) -> tid.  Returns (schedule, failure or None)."""
+    lr = LineRun(progs, kind)
+    r = lr.r
+    sched = []
+    last = None
+    fail = None
+    try:
+        i = 0
+        fail = lr.check_state(-1)
+        while fail is None and not r.all_done() and i < max_steps:
+            en = r.enabled_tids()
+            t = chooser(i, en, last)
+            sched.append(t)
+            r.step(t)
+            last = t
+            fail = lr.check_state(i)
+            i += 1
+        if fail is None and r.all_done():
+            fail = lr.final_check()
+        elif fail is None:
+            fail = {"what": "run did not finish within the step budget"}
+    finally:
+        r.close()
+    if fail is not None:
+        fail["step"] = len(sched) - 1
+    return sched, fail
+
+
+def bounded_preemption_schedules(progs, kind, k, cap, rng):
+    """all schedules with at most k preemptions: a schedule is determined by the positions at which the
+    running thread is preempted (it is still enabled but another thread is chosen) and by the thread
+    chosen whenever a choice is forced or a preemption happens.  DFS by replay."""
+    results = []
+    # a decision list: [(step index, tid)] overriding the default "keep running the last thread,
+    # else the lowest enabled tid"
+    stack = [[]]
+    seen = 0
+    while stack and seen < cap:
+        decisions = stack.pop(rng.randrange(len(stack)))   # capped: visit the tree in random order
+        dmap = dict(decisions)
+        log = []
+
+        def chooser(i, en, last, dmap=dmap, log=log):
+            default = last if last in en else en[0]
+            t = dmap.get(i, default)
+            if t not in en:
+                t = default
+            log.append((i, list(en), last, t))
+            return t
+
+        sched, fail = run_line_schedule(progs, kind, chooser)
+        seen += 1
+        results.append((sched, fail))
+        if fail is not None:
+            break
+        # children: one more decision at a step after the last decision
+        start = decisions[-1][0] + 1 if decisions else 0
+        npre = sum(1 for (i, t) in decisions if _is_preemption(log, i, t))
+        for (i, en, last, t) in log:
+            if i < start:
+                continue
+            for alt in en:
+                if alt == t:
+                    continue
+                preempt = last in en  # choosing someone else while `last` could continue
+                if preempt and npre >= k:
+                    continue
+                stack.append(decisions + [(i, alt)])
+    return results, seen
+
+
+def _is_preemption(log, i, t):
+    for (j, en, last, chosen) in log:
+        if j == i:
+            return last in en and t != last
+    return False
+
+
+W1 = [0, 0, [[0, 2, 1]], 1]
+W2 = [0, 0, [[0, 3, 2], [1, 2]], 1]
+WR = [0, 0, [[0, 2, 7]], 0]
+R = [1, None]
+P = [2, 1]
+
+
 def check(ctx):
-    return []
+    F = []
+    evals = 0
+    lines = 0
+
+    def report(progs, kind, sched, fail, how):
+        F.append({
+            "kind": "C12:lines:" + fail["what"], "what": fail["what"] + " (line-level preemption)", "sig": "lines:" + fail["what"],
+            "how": how, "detail": {k: v for k, v in fail.items() if k != "what"},
+            "case": [3, kind, progs, sched],
+        })
+
+    configs = [([W1, W2, R], 0), ([W1, WR, R], 1)]
+    if not ctx.quick:
+        configs += [([W1, W2, WR], 0), ([W2, W1, P, R], 1)]
+    k = 1 if ctx.quick else 2
+    cap = ctx.n(250, 6000)
+    scopes = []
+    for progs, kind in configs:
+        res, seen = bounded_preemption_schedules(progs, kind, k, cap, ctx.rng)
+        evals += seen
+        scopes.append(f"{seen} schedules{' (capped, random order)' if seen >= cap else ' (all)'} with <= {k} preemptions of {progs}")
+        for sched, fail in res:
+            lines = max(lines, len(sched))
+            if fail is not None:
+                report(progs, kind, sched, fail, "bounded preemption")
+                break
+    rng = ctx.rng
+    import pC12
+    for i in range(ctx.n(150, 2500)):
+        progs = pC12.gen_progs(rng, rng.choice([2, 3, 3, 4, 5]))
+        stick = rng.choice([0.0, 0.5, 0.8, 0.95])
+
+        def chooser(j, en, last, stick=stick):
+            if last in en and rng.random() < stick:
+                return last
+            return rng.choice(en)
+
+        sched, fail = run_line_schedule(progs, i % 2, chooser)
+        evals += 1
+        lines = max(lines, len(sched))
+        if fail is not None:
+            report(progs, i % 2, sched, fail, "random preemption")
+            if len(F) >= 3:
+                break
+    ctx.notes["extra_evaluations"] = ctx.notes.get("extra_evaluations", 0) + evals
+    ctx.notes["extra_nontrivial"] = ctx.notes.get("extra_nontrivial", 0) + evals
+    ctx.notes["line_level_schedules"] = evals
+    ctx.notes["line_level_scope"] = "; ".join(scopes) + "; plus random preemption; longest schedule %d line steps" % lines
+    return F
+
+
+def replay(case):
+    _, kind, progs, sched = case
+    it = iter(sched)
+
+    def chooser(i, en, last):
+        try:
+            t = next(it)
+        except StopIteration:
+            return last if last in en else en[0]
+        return t if t in en else en[0]
+
+    _, fail = run_line_schedule(progs, kind, chooser)
+    return fail
